@@ -1,4 +1,5 @@
 import PyYetiVerif.Lemmas.Findap
+import PyYetiVerif.Lemmas.FindapFix
 import PyYetiVerif.Lemmas.FdeSrs
 import PyYetiVerif.Lemmas.FdeDamage
 import Mathlib.Algebra.Order.Ring.Abs
@@ -103,6 +104,39 @@ theorem findapDef_scale (c : α) (hc : 0 < c) (tol : α) (y : List α) :
   unfold findapDef
   rw [stol_scale c hc, findapDefSt_scale c hc]
 
+/-! ### the current default variant (`_unique_kept`) -/
+
+theorem hystMask_scale (c : α) (hc : 0 < c) (st : α) (l : List α) :
+    ∀ h : α, hystMask (c * st) (c * h) (l.map (c * ·)) = hystMask st h l := by
+  induction l with
+  | nil => intro h; rfl
+  | cons x r ih =>
+      intro h
+      simp only [List.map_cons, hystMask, absd_scale c hc, mul_lt_mul_iff_right₀ hc]
+      split
+      · rw [ih]
+      · rw [ih]
+
+theorem findapDefFixSt_scale (c : α) (hc : 0 < c) (st : α) (y : List α) :
+    findapDefFixSt (c * st) (y.map (c * ·)) = findapDefFixSt st y := by
+  match y with
+  | [] => rfl
+  | [_] => rfl
+  | a :: b :: r =>
+      simp only [List.map_cons, findapDefFixSt, fixMask_eq]
+      have hu := hystMask_scale c hc st (b :: r) a
+      simp only [List.map_cons] at hu
+      rw [hu]
+      have hs := select_map (fun x => c * x) (true :: hystMask st a (b :: r)) (a :: b :: r)
+      simp only [List.map_cons] at hs
+      rw [hs, pvOf_scale c hc]
+
+/-- the default `findap` (current code) selects the same samples of `c·y` as of `y` -/
+theorem findapDefFix_scale (c : α) (hc : 0 < c) (tol : α) (y : List α) :
+    findapDefFix tol (y.map (c * ·)) = findapDefFix tol y := by
+  unfold findapDefFix
+  rw [stol_scale c hc, findapDefFixSt_scale c hc]
+
 end PyYetiVerif.Findap
 
 namespace PyYetiVerif.Fde
@@ -121,8 +155,8 @@ theorem rainflow_scale (k : α) (hk : 0 < k) (pts : List α) :
 theorem cyclesOf_scale (c : α) (hc : 0 < c) (tol : α) (y : List α) :
     cyclesOf tol (y.map (c * ·)) = (cyclesOf tol y).map (scaleCycles c) := by
   unfold cyclesOf
-  rw [Findap.findapDef_scale c hc]
-  cases Findap.findapDef tol y with
+  rw [Findap.findapDefFix_scale c hc]
+  cases Findap.findapDefFix tol y with
   | none => rfl
   | some m =>
       simp only []
